@@ -198,7 +198,7 @@ pub fn check_bits(x: u64, near: u64) -> Vec<Viol> {
 
 pub fn run(tier: &str) -> Report {
     let mut rep = Report::new("model_checking");
-    let rmax = if tier == "quick" { 8 } else { 10 };
+    let rmax = if tier == "quick" { 9 } else { 10 };
     let agreed = AtomicU64::new(0);
     let evals = AtomicU64::new(0);
     // ---- exhaustive tuples r = -1..rmax
